@@ -112,13 +112,13 @@ func Ident(r *rand.Rand, maxLen int) string {
 
 // ValueOpts controls Value.
 type ValueOpts struct {
-	MaxDepth   int
-	MaxWidth   int
-	MaxStr     int
-	AllowNUL   bool
-	Symbols    bool // include symbols
-	PlainKeys  bool // keys/strings over letters only
-	NoSets     bool
+	MaxDepth      int
+	MaxWidth      int
+	MaxStr        int
+	AllowNUL      bool
+	Symbols       bool // include symbols
+	PlainKeys     bool // keys/strings over letters only
+	NoSets        bool
 	NoMarkerStart bool // strings never start with U+029E (such a Go string is a keyword)
 }
 
